@@ -10,8 +10,13 @@ KEYS = ["goodwe.modbus._modbus_checksum", "goodwe.modbus.validate_modbus_rtu_res
 def units(tier):
     resp = [("script", SIDECARS, "pyvc.sensor_harness", "response_construction", f"response:{kind}", ("C02", "C12"),
              tier, {"kind": kind}) for kind in ("rtu", "tcp", "aa55")]
+    from . import C04
     return (resp + contract_units(SIDECARS, KEYS, tier) + bv_units(SIDECARS, KEYS[0], (0,), tier)
-            + diff_units(SIDECARS, KEYS, tier))
+            + diff_units(SIDECARS, KEYS, tier) + C04.binding_units(tier))
+
+
+def replay(vc, unit):
+    return replay_protocol(vc, unit) if vc["name"].startswith("binding:") else None
 
 
 INFO = {
